@@ -66,6 +66,8 @@ type Contract struct {
 	Ensures  []Clause
 	Covers   []Clause
 	Guards   []Clause
+	CallGuards  []PatGuard
+	StoreGuards []PatGuard
 	Modifies []ast.Expr
 	ModText  []string
 	ModAll   bool
@@ -75,6 +77,11 @@ type Contract struct {
 	Loops    []*LoopSpec
 	Src      string
 	Props    []string // property ids this contract's clauses are tagged with
+}
+
+type PatGuard struct {
+	Pattern *regexp.Regexp
+	Cond    Clause
 }
 
 type SpecMacro struct {
@@ -401,6 +408,37 @@ func (cs *ContractSet) LoadFile(path, defaultPkg string) {
 					continue
 				}
 				cur.Ensures = append(cur.Ensures, c)
+			case "guard-call", "guard-store":
+				// guard-call [label:] "<callee name regexp>" <expr>
+				lab := ""
+				r := rest
+				if m := labelRe.FindStringSubmatch(r); m != nil {
+					lab, r = m[1], m[2]
+				}
+				m := regexp.MustCompile(`^"([^"]*)"\s+(.*)$`).FindStringSubmatch(r)
+				if m == nil {
+					fail(fmt.Errorf("%s: bad %s clause", src, word))
+					continue
+				}
+				rx, err := regexp.Compile("^(" + m[1] + ")$")
+				if err != nil {
+					fail(fmt.Errorf("%s: %v", src, err))
+					continue
+				}
+				c, err := parseClause(m[2], src)
+				if err != nil {
+					fail(err)
+					continue
+				}
+				c.Label = lab
+				if c.Label == "" {
+					c.Label = word
+				}
+				if word == "guard-call" {
+					cur.CallGuards = append(cur.CallGuards, PatGuard{rx, c})
+				} else {
+					cur.StoreGuards = append(cur.StoreGuards, PatGuard{rx, c})
+				}
 			case "guard":
 				c, err := parseClause(rest, src)
 				if err != nil {
